@@ -148,12 +148,14 @@ func C14(c *core.Ctx) {
 		"and '_'. " + engineAText +
 		"Collision families: sibling properties, and definitions referring to each other, are generated with string-equality forking switched ON, so every coincidence of synthesised identifiers (also with a " +
 		"goJSONSchema.identifier override) is a world of its own; atoms a world equates share one placeholder, and the emitted file must still type-check (distinct field names, distinct type names) and bind " +
-		"every field's tags to its own raw name (A-TAG). Reserved names: schema names equal to identifiers the emitted code uses for itself (Plain, raw, value, AdditionalProperties) as titles, definitions and " +
+		"every field's tags to its own raw name (A-TAG), and no name may pass through a printf format position on its way there (A-EVENT:symbolic-format). Reserved names: schema names equal to identifiers the emitted code uses for itself (Plain, raw, value, AdditionalProperties) as titles, definitions and " +
 		"properties, next to additionalProperties: the file type-checks, tags bind, and reflect.TypeOf(T{}) in the additional-properties block names the shadow type of the decoded value (A-SHADOW). Not decided: file-name derived root names beyond filepath.Base + extension trimming (C12)."
 	c.Exhaustive = true
 	skel.DepsDir = filepath.Join(c.VerifDir, "checker", "testdata", "emitdeps")
 	ruleIdent(c)
-	rules := ruleSet("A-TYP", "A-TAG", "A-MAP")
+	// A-EVENT:symbolic-format: a schema name that reaches a printf FORMAT position is rewritten wherever it contains a '%'
+	// (the tag then no longer carries the property's name)
+	rules := ruleSet("A-TYP", "A-TAG", "A-MAP", "A-EVENT")
 	for _, mb := range collisionMembers() {
 		runCollisionMember(c, mb, rules, 4096)
 	}
